@@ -12,6 +12,7 @@ mod c0607;
 mod c08;
 mod c09;
 mod c10;
+mod c11;
 mod c12;
 mod c13;
 mod c14;
@@ -122,6 +123,7 @@ fn main() {
                 }
                 "C09" => c09::search(seed, full, &rt),
                 "C10" => c10::search(seed, full, &rt),
+                "C11" => c11::search(seed, full, &rt),
                 "C12" => c12::search(seed, full, &rt),
                 "C13" => c13::search(seed, full, &rt),
                 "C14" => c14::search(seed, full, &rt),
@@ -181,6 +183,7 @@ fn main() {
                 "c06" | "c07" => c0607::replay(case[0], &case[1..], &rt),
                 "c09" => c09::replay(&case[1..], &rt),
                 "c10" => c10::replay(&case[1..], &rt),
+                "c11" => c11::replay(&case[1..], &rt),
                 "c12" => c12::replay(&case[1..], &rt),
                 "c13" => c13::replay(&case[1..], &rt),
                 "c14" => c14::replay(&case[1..], &rt),
